@@ -1,4 +1,5 @@
 import Dicom.Model.Bytes
+import Dicom.Generated.Limits
 /-! Model of `dimsemessages.chunks / fragment / fragment_file / DIMSEMessage.encode` and of
 `fsm.DIMSEDecoder.process`.  Core Lean only. -/
 namespace Dicom
@@ -33,7 +34,7 @@ structure Frag where
 deriving DecidableEq, Repr
 
 /-- the fragment size in force: 0 means "no limit" and is served with the library default -/
-def effMax (maxLen : Nat) : Nat := if maxLen = 0 then 65536 else maxLen
+def effMax (maxLen : Nat) : Nat := if maxLen = 0 then Dicom.Generated.defaultMaxPdu else maxLen
 
 def fragsOf (pc : Nat) (normal last : Nat) (n : Nat) (s : Bytes) : List Frag :=
   (chunks n s).map fun c => ⟨pc, if c.2 then normal else last, c.1⟩
